@@ -253,6 +253,35 @@ func runC05(tier, replay string) {
 				got["Default"] = fmt.Sprint(types.Identical(d, g.w.Type(*p.Dflt)))
 				want["Default"] = "true"
 			}
+			// alias realisation: type AV = V, type AT = T are identical to V and T; the verdicts must not change
+			if o.Ty.K != "untyped" || p.T.K != "untyped" {
+				aV, aT := V, T
+				if o.Ty.K != "untyped" {
+					aV = types.NewAlias(types.NewTypeName(token.NoPos, pkg.Types, "AV", nil), V)
+				}
+				if p.T.K != "untyped" {
+					aT = types.NewAlias(types.NewTypeName(token.NoPos, pkg.Types, "AT", nil), T)
+				}
+				el := func(ox gridOperand, t types.Type) *gogen.Element { e := g.elem(ox); e.Type = t; return e }
+				gotA := map[string]string{}
+				gotA["AssignableConv"] = tryBool(func() bool { return gogen.AssignableConv(pkg, aV, aT, el(o, aV)) })
+				if o.C.CK == "none" {
+					gotA["ConvertibleTo"] = tryBool(func() bool { return gogen.ConvertibleTo(pkg, aV, aT) })
+				}
+				gotA["ComparableTo(v,t)"] = tryBool(func() bool { return gogen.ComparableTo(pkg, el(o, aV), el(target, aT)) })
+				gotA["ComparableTo(t,v)"] = tryBool(func() bool { return gogen.ComparableTo(pkg, el(target, aT), el(o, aV)) })
+				for k, ga := range gotA {
+					if ga != want[k] && ga != got[k] {
+						g2 := ga
+						if strings.HasPrefix(g2, "panic:") {
+							g2 = "panic"
+						}
+						run.Fail(fmt.Sprintf("alias-changes-verdict/%s: Go=%s plain=%s alias=%s", k, want[k], got[k], g2),
+							fmt.Sprintf("%s on %s with V and T replaced by aliases of themselves: Go says %s, gogen says %s for the plain types and %s for the aliases", k, p.name(), want[k], got[k], ga),
+							map[string]any{"mode": mode, "point": p})
+					}
+				}
+			}
 			mu.Lock()
 			npoints++
 			mu.Unlock()
